@@ -43,6 +43,12 @@ checks = {
  "C14": ("exploration", "6/C14",
          "Seeded simulation of generated histories through ocifilter.ReadOnly (every mutating call must fail as UNSUPPORTED without reaching the recording backend; the underlying registry is read back against the model afterwards), through ocifilter.Immutable and against ocimem in immutable-tags mode (table of first observations per tag: every later resolve/get agrees in digest and bytes; no delete succeeds through the wrapper; after every step everything a tagged manifest transitively references - walked the way a puller would, by served media type - is retrievable; plus the reference model), and concurrent runs of 2-4 tasks against an immutable-tags ocimem under the deterministic scheduler (engine A) and under the race detector with raw-pipe hand-off (engine B).",
          "deterministic simulation: seeded histories with first-observation and closure invariants and a recording backend; seeded schedules over instrumented lock sites; race detector under a controlled serial schedule; choice-trace replay and minimisation"),
+ "C16": ("exploration", "6/C16",
+         "Seeded schedule and fault exploration of ociunify's concurrent read policy over two gated fake members inside the deterministic scheduler: each of the five read entry points x member outcomes (ok/fail) x per-member delays x members that return only when their context is cancelled x caller cancellation before/between/after the answers x select preferences (the library's select statements are rewritten so that the choice among ready cases is seeded). Oracle: the result is a successful member's answer, an error only if both failed or the caller cancelled; every reader opened on the member not chosen is closed; the chosen member's context is live until the returned reader is closed and cancelled afterwards; and when the run ends no goroutine is left blocked (the synctest bubble reports any).",
+         "deterministic simulation: seeded scheduler and seeded select over instrumented goroutine/channel sites (testing/synctest), gated fake members with reader/context tracking, bubble-level goroutine-leak detection; choice-trace replay and minimisation"),
+ "C15": ("exploration", "6/C15",
+         "Seeded simulation inside the deterministic scheduler (ociunify's goroutines, channels, io.Pipe and selects are simulator tasks). Reads: generated pairs of member states (each blob/manifest in member 0, member 1, both or neither; tags agreeing, conflicting or one-sided; repositories known to one member) queried under both read policies: digest-addressed content readable iff a member has it, tags resolve iff the members agree or one has it (never a silent pick), listings are the sorted duplicate-free union, and both policies agree. Writes: generated histories (pushes, mounts, deletes, chunked uploads with close/resume) through the unifier over two equal members: the unifier behaves like one registry (reference model), every successful write is visible on both members, and the members stay observably equal; with one member made to fail a write, success must not be reported.",
+         "deterministic simulation: seeded scheduler over instrumented goroutine/channel/select sites (testing/synctest), union oracle over generated member states, reference model plus member-equality invariant for writes, member write fault injection; choice-trace replay and minimisation"),
 }
 
 na = [
